@@ -148,6 +148,10 @@ def wire_packet(rng, kind, item):
     if kind == "ebyte":
         return n2k.wire_ebyte(idn, data)
     if kind == "waveshare":
+        if len(data) >= 4 and rng.random() < 0.06:
+            # a packet whose body happens to contain the start marker (e.g. a heading of raw value 0x55AA)
+            k = rng.randrange(1, len(data) - 2)
+            data = data[:k] + b"\xaa\x55" + data[k + 2:]
         p = n2k.wire_usb(idn, data)
         return p
     if kind == "yd":
@@ -248,6 +252,9 @@ def cuts_for(rng, packets, kind):
             cand = [pos + rng.randrange(1, 5), pos + 5, pos + 12]
         elif kind == "waveshare":
             cand = [pos + 1, pos + 2, pos + rng.randrange(5, 9), pos + 19]
+            inner = p.find(b"\xaa\x55", 2)
+            if inner != -1:
+                cand += [pos + inner, pos + inner, pos + inner + 1]      # a read that starts with a marker inside a packet
         else:
             cand = [pos + len(p) - 1, pos + len(p) - 2, pos + rng.randrange(0, max(1, len(p)))]
         for c in cand:
